@@ -8,14 +8,16 @@
     a `return args[i]` leaf requests that argument lazily, any other leaf is computed with the
     checked semantics `evalC`; a fault – undefined behaviour in C++ – ends the run like an exception;
     by C14 it never happens for 32-bit operands);
-  * boolean family, variables, constants, the integer ephemeral constant: written by hand below
-    (bool.h, variable.h, constant.h, int.h `number`).
+  * boolean family, variables, constants, the integer ephemeral constant: the terms GENERATED from bool.h,
+    variable.h, constant.h, int.h `number` by tools/translate_prims01.py (Vita.C01.GenPrims); `varP` / `constP`
+    are only shorter names for them.
 -/
 import Vita.Common.Prog
 import Vita.Common.FloatOps
 import Vita.Common.IntE
 import Vita.C13.Gen
 import Vita.C14.Gen
+import Vita.C01.GenPrims
 
 namespace Vita.C01
 open Vita Vita.IntE
@@ -69,35 +71,13 @@ def tailE (ρ : Env) : E → Prog F (Val F)
 def progOfE (e : E) : Prog F (Val F) :=
   fetchInts (positions (eVars e) 8) [] fun ρ => tailE (envOf ρ) e
 
-/-! ### hand-written bodies -/
+/-! ### terminals (generated bodies under their old names) -/
 
 /-- `variable::eval`: `p.fetch_var(var_)` -/
-def varP (k : Nat) : Prog F (Val F) := .var k fun v => .ret v
+def varP (k : Nat) : Prog F (Val F) := GenPrims.variableP k
 
 /-- `constant<T>::eval`: the stored value -/
-def constP (v : Val F) : Prog F (Val F) := .ret v
-
-/-- `integer::number::eval`: `static_cast<int>(p.fetch_param())` -/
-def intErcP : Prog F (Val F) := .param fun p => .ret (.int (FloatOps.toInt p))
-
-/-- `boolean::zero` / `boolean::one` -/
-def boolP (b : Bool) : Prog F (Val F) := .ret (Val.ofBool b)
-
-/-- `boolean::l_and`: `std::get<D_INT>(args[0]) && std::get<D_INT>(args[1])` (short-circuit) -/
-def landP : Prog F (Val F) :=
-  .fetch 0 fun a => Val.withInt a fun x =>
-    if x ≠ 0 then .fetch 1 fun b => Val.withInt b fun y => .ret (Val.ofBool (y ≠ 0))
-    else .ret (Val.ofBool false)
-
-/-- `boolean::l_or` -/
-def lorP : Prog F (Val F) :=
-  .fetch 0 fun a => Val.withInt a fun x =>
-    if x ≠ 0 then .ret (Val.ofBool true)
-    else .fetch 1 fun b => Val.withInt b fun y => .ret (Val.ofBool (y ≠ 0))
-
-/-- `boolean::l_not` -/
-def lnotP : Prog F (Val F) :=
-  .fetch 0 fun a => Val.withInt a fun x => .ret (Val.ofBool (x = 0))
+def constP (v : Val F) : Prog F (Val F) := GenPrims.constantP v
 
 /-! ### the table: symbol name (as in `symbol::name()`) ↦ arity and body -/
 
@@ -141,11 +121,11 @@ def table : List (Entry F) :=
    ⟨"IFE", 4, progOfE C14.Gen.ifeE⟩,
    ⟨"IFL", 4, progOfE C14.Gen.iflE⟩,
    ⟨"IFZ", 3, progOfE C14.Gen.ifzE⟩,
-   ⟨"INT", 0, intErcP⟩,
-   ⟨"AND", 2, landP⟩,
-   ⟨"OR", 2, lorP⟩,
-   ⟨"NOT", 1, lnotP⟩,
-   ⟨"0", 0, boolP false⟩,
-   ⟨"1", 0, boolP true⟩]
+   ⟨"INT", 0, GenPrims.integer_numberP⟩,
+   ⟨"AND", 2, GenPrims.boolean_l_andP⟩,
+   ⟨"OR", 2, GenPrims.boolean_l_orP⟩,
+   ⟨"NOT", 1, GenPrims.boolean_l_notP⟩,
+   ⟨"0", 0, GenPrims.boolean_zeroP⟩,
+   ⟨"1", 0, GenPrims.boolean_oneP⟩]
 
 end Vita.C01
